@@ -46,7 +46,7 @@ def check(repo, col, tier):
     c01_solver._merge(repo, col, "R-C02-schedule")
 
 
-def _stim(repo, col):
+def _stim(repo, col, R="R-C02-stim"):
     fi = repo.method("Module", "_get_external_input")
     ex = Expander(repo, fi)
     conv = [c for c in ex.calls if isinstance(c.func, ast.Name) and c.func.id == "convert_point_process_to_distributed"]
@@ -59,21 +59,21 @@ def _stim(repo, col):
     c = conv[0]
     args = [ex.term(a) for a in c.args]
     if len(args) != 3:
-        col.unk("R-C02-stim", fi, c, "unexpected arity")
+        col.unk(R, fi, c, "unexpected arity")
         return
     def gather_idx(t):
         return t.args[1] if t.op == "sub" else None
     gr, gl = gather_idx(args[1]), gather_idx(args[2])
-    col.check(args[0].op == "param", "R-C02-stim", fi, "current argument is the stimulus itself",
+    col.check(args[0].op == "param", R, fi, "current argument is the stimulus itself",
               "the raw stimulus (nA) is converted", f"current argument is {args[0].short()}", node=c)
     ok = gr is not None and gl is not None and gr.key() == gl.key()
-    col.check(ok, "R-C02-stim", fi, "radius and length gathered with one index array",
+    col.check(ok, R, fi, "radius and length gathered with one index array",
               "radius[i] and length[i] use the same i", "radius and length are gathered with different indices", node=c)
     bases = {"radius": args[1].args[0] if args[1].op == "sub" else None,
              "length": args[2].args[0] if args[2].op == "sub" else None}
     params = fi.params
     col.check(all(b is not None and b.op == "param" for b in bases.values())
-              and bases["radius"].name != bases["length"].name, "R-C02-stim", fi, "radius / length arguments",
+              and bases["radius"].name != bases["length"].name, R, fi, "radius / length arguments",
               "second argument gathers the radius parameter, third the length parameter",
               f"arguments are {args[1].short()} and {args[2].short()}", node=c)
     # additive scatter with the same index
@@ -83,26 +83,26 @@ def _stim(repo, col):
         sargs = [ex.term(a) for a in s.args]
         idx = sargs[1]
         idx_base = T.find(idx, lambda x: gr is not None and x.key() == gr.key())
-        col.check(name == "scatter_add", "R-C02-stim", fi, "scatter is additive",
+        col.check(name == "scatter_add", R, fi, "scatter is additive",
                   "several stimuli on one compartment add", f"`{name}` overwrites instead of adding", node=s)
-        col.check(idx_base is not None, "R-C02-stim", fi, "scatter index == gather index",
+        col.check(idx_base is not None, R, fi, "scatter index == gather index",
                   "the current is injected into the compartment whose area it was divided by",
                   f"scatter index {idx.short()} differs from the gather index {gr.short() if gr else '?'}", node=s)
         zero = sargs[0]
-        col.check(any(x.op == "mcall" and x.name == "zeros_like" for x in zero.walk()), "R-C02-stim", fi,
+        col.check(any(x.op == "mcall" and x.name == "zeros_like" for x in zero.walk()), R, fi,
                   "scatter starts from zeros", "base of the scatter is zero", f"base of the scatter is {zero.short()}", node=s)
         upd = sargs[2]
-        col.check(any(x.node is c for x in upd.walk()), "R-C02-stim", fi, "scattered values are the converted currents",
+        col.check(any(x.node is c for x in upd.walk()), R, fi, "scattered values are the converted currents",
                   "the distributed current is what is scattered", f"scattered value is {upd.short()}", node=s)
     elif sets:
         s = sets[0]
-        col.check(s.func.attr == "add", "R-C02-stim", fi, "scatter is additive",
+        col.check(s.func.attr == "add", R, fi, "scatter is additive",
                   "several stimuli on one compartment add", "`.at[].set` overwrites instead of adding", node=s)
         idx = ex.term(s.func.value.slice)
-        col.check(gr is not None and idx.key() == gr.key(), "R-C02-stim", fi, "scatter index == gather index",
+        col.check(gr is not None and idx.key() == gr.key(), R, fi, "scatter index == gather index",
                   "same index", f"scatter index {idx.short()} differs from the gather index", node=s)
     else:
-        col.unk("R-C02-stim", fi, "_get_external_input", "no scatter found", node=fi.node)
+        col.unk(R, fi, "_get_external_input", "no scatter found", node=fi.node)
     # call site in step: which arrays are passed
     st = repo.method("Module", "step")
     ex2 = Expander(repo, st)
@@ -113,10 +113,10 @@ def _stim(repo, col):
     want = {1: ("external_inds", "i"), 2: ("externals", "i"), 3: ("params", "radius"), 4: ("params", "length")}
     for i, (d, k) in want.items():
         if i >= len(a):
-            col.unk("R-C02-stim", st, calls[0], "unexpected arity")
+            col.unk(R, st, calls[0], "unexpected arity")
             break
         t = a[i]
         ok = t.op == "sub" and t.args[0].op == "param" and t.args[0].name == d and t.args[1].op == "const" and t.args[1].name == k
-        col.check(ok, "R-C02-stim", st, f"_get_external_input argument {i} = {d}['{k}']",
+        col.check(ok, R, st, f"_get_external_input argument {i} = {d}['{k}']",
                   "stimulus indices, stimulus values, radius and length are passed in their roles",
                   f"argument {i} is {t.short()}, expected {d}['{k}']", node=calls[0])
